@@ -101,6 +101,8 @@ type primShape struct {
 	circles       []primCircle // creases of the surface: circles
 	points        []pvec       // creases of the surface: isolated points (apex, 2D corners)
 	boxEdges      bool         // creases are the edges of an axis-aligned box (decided from the hit points)
+	coneAxis      *pvec        // cone: unit axis, and
+	coneSlope     float64      // radius / height (rays parallel to a generator line are not in general position)
 }
 
 type prim3 interface {
@@ -515,6 +517,7 @@ func genCone(rng *rand.Rand) *primShape {
 	ax := pvScale(i3f(a), 1/pvNorm(i3f(a)))
 	s.circles = []primCircle{{i3f(base), ax, float64(r)}}
 	s.points = []pvec{i3f(tip)}
+	s.coneAxis, s.coneSlope = &ax, float64(r)/pvNorm(i3f(a))
 	axisSpecials(s, b4, a, 4*r, 3, []int{0, 0}, []int{1, 2})
 	s.special = append(s.special, primSpecial{i3scale(tip, 4), "apex"})
 	return s
@@ -1097,6 +1100,73 @@ func primOutward(s *primShape, x, n pvec) bool {
 	return s.sdf(pvAdd(x, pvScale(n, primEps))) < -primEps*1e-3
 }
 
+// smoothAt: x is not within 1e-4 of a crease (rim, apex, corner, box edge) of the surface
+func primSmoothAt(s *primShape, x pvec) bool {
+	if s.smooth {
+		return true
+	}
+	for _, c := range s.circles {
+		w := pvSub(x, c.c)
+		h := pvDot(w, c.a)
+		rho := pvNorm(pvSub(w, pvScale(c.a, h)))
+		if math.Hypot(rho-c.r, h) < 1e-4 {
+			return false
+		}
+	}
+	for _, p := range s.points {
+		if pvNorm(pvSub(x, p)) < 1e-4 {
+			return false
+		}
+	}
+	if s.boxEdges {
+		onFaces := 0
+		for i := 0; i < 3; i++ {
+			if math.Abs(x[i]-float64(s.data[i])/4) < 1e-4 || math.Abs(x[i]-float64(s.data[3+i])/4) < 1e-4 {
+				onFaces++
+			}
+		}
+		if onFaces >= 2 {
+			return false
+		}
+	}
+	return true
+}
+
+// the outward unit normal at a smooth surface point x, from the distance field itself:
+// -grad SDF (central differences); ok only if the gradient has unit length there
+func primGradNormal(s *primShape, x pvec) (pvec, bool) {
+	const h = 1e-6
+	var g pvec
+	for i := 0; i < s.dim; i++ {
+		a, b := x, x
+		a[i] += h
+		b[i] -= h
+		g[i] = (s.sdf(a) - s.sdf(b)) / (2 * h)
+	}
+	n := pvNorm(g)
+	if !(n > 1-1e-3 && n < 1+1e-3) {
+		return pvec{}, false
+	}
+	return pvScale(g, -1/n), true
+}
+
+// the normal n reported for the surface point x is the surface normal there: at a smooth point
+// it equals -grad SDF; at a crease of a convex shape it lies in the normal cone, i.e. x is the
+// nearest surface point of x + n/2 (vertices of model2d.Triangle follow their own documented
+// convention and are only required to point outward)
+func primNormalAt(s *primShape, x, n pvec) bool {
+	if primSmoothAt(s, x) {
+		if g, ok := primGradNormal(s, x); ok {
+			return pvDot(n, g) >= 1-1e-6
+		}
+		return true
+	}
+	if s.shape == "tri2" {
+		return true
+	}
+	return math.Abs(s.sdf(pvAdd(x, pvScale(n, 0.5)))+0.5) <= 1e-9
+}
+
 func primSdfQuery(s *primShape, q [3]int, tag string) primSdfQ {
 	o := primSdfQ{Q: i3slice(q), Tag: tag}
 	c := q4pt(q)
@@ -1112,18 +1182,14 @@ func primSdfQuery(s *primShape, q [3]int, tag string) primSdfQ {
 	o.Psurf = math.Abs(s.sdf(p)) <= 1e-9*(1+pvMaxAbs(p))
 	o.Nunit = math.Abs(pvNorm(n)-1) <= 1e-9
 	o.Nout = primOutward(s, p, n)
-	o.Ncons = true
-	if d > 1e-6 {
-		u := pvScale(pvSub(c, p), 1/d) // from the nearest point towards the query
+	o.Ncons = primNormalAt(s, p, n)
+	if d > 1e-6 && primSmoothAt(s, p) {
+		// the nearest point is a smooth surface point: the query lies on its normal line
+		u := pvScale(pvSub(c, p), 1/d)
 		if v > 0 {
 			u = pvScale(u, -1) // the query is inside: the outward direction points away from it
 		}
-		dot := pvDot(n, u)
-		if s.smooth {
-			o.Ncons = dot >= 1-1e-6
-		} else {
-			o.Ncons = dot >= -1e-9
-		}
+		o.Ncons = o.Ncons && pvDot(n, u) >= 1-1e-6
 	}
 	o.V4, o.V4x = scaledInt(v, 4)
 	o.V256, _ = scaledInt(v, 256)
@@ -1183,6 +1249,7 @@ type primRayQ struct {
 	Onsurf  bool  `json:"onsurf"`
 	Nunit   bool  `json:"nunit"`
 	Nout    bool  `json:"nout"`
+	Nsurf   bool  `json:"nsurf"`
 	Firstok bool  `json:"firstok"`
 	Gp      bool  `json:"gp"`
 	Inside  bool  `json:"inside"`
@@ -1219,20 +1286,21 @@ func primRay(s *primShape, o4, d [3]int, e int, extent float64) primRayQ {
 	n, hits := s.rays(o, dir, true)
 	q.N, q.Ncb = n, len(hits)
 	q.Nnil, _ = s.rays(o, dir, false)
-	q.Tpos, q.Onsurf, q.Nunit, q.Nout = true, true, true, true
+	q.Tpos, q.Onsurf, q.Nunit, q.Nout, q.Nsurf = true, true, true, true, true
 	q.Gp = true
-	check := func(h primHit) (tpos, onsurf, nunit, nout bool) {
+	check := func(h primHit) (tpos, onsurf, nunit, nout, nsurf bool) {
 		x := pvAdd(o, pvScale(dir, h.t))
 		tpos = h.t >= 0
 		onsurf = math.Abs(s.sdf(x)) < 1e-7*math.Max(1, math.Max(pvMaxAbs(x), extent))
 		nunit = math.Abs(pvNorm(h.n)-1) <= 1e-9
 		nout = primOutward(s, x, h.n)
+		nsurf = !onsurf || !nunit || primNormalAt(s, x, h.n)
 		return
 	}
 	dist := []float64{}
 	for _, h := range hits {
-		a, b, c, dd := check(h)
-		q.Tpos, q.Onsurf, q.Nunit, q.Nout = q.Tpos && a, q.Onsurf && b, q.Nunit && c, q.Nout && dd
+		a, b, c, dd, ee := check(h)
+		q.Tpos, q.Onsurf, q.Nunit, q.Nout, q.Nsurf = q.Tpos && a, q.Onsurf && b, q.Nunit && c, q.Nout && dd, q.Nsurf && ee
 		dist = append(dist, h.t*dn)
 		if math.Abs(pvDot(h.n, dir)) < 1e-6*dn {
 			q.Gp = false // grazing
@@ -1286,16 +1354,34 @@ func primRay(s *primShape, o4, d [3]int, e int, extent float64) primRayQ {
 			q.Gp = false
 		}
 	}
+	if s.coneAxis != nil {
+		// a ray parallel to a generator line meets the (double) cone in one point instead of two
+		da := pvDot(dir, *s.coneAxis)
+		perp2 := dn*dn - da*da
+		if math.Abs(perp2-s.coneSlope*s.coneSlope*da*da) < 1e-9*dn*dn {
+			q.Gp = false
+		}
+	}
 	// first collision
 	f, ok := s.first(o, dir)
 	q.Firstok = ok == (n > 0)
 	if ok && len(hits) > 0 {
-		mint := hits[0].t
+		// the first collision is the reported collision of minimum parameter (same normal, unless
+		// several collisions share that parameter)
+		best := hits[0]
+		same := 0
 		for _, h := range hits {
-			mint = math.Min(mint, h.t)
+			if h.t < best.t {
+				best = h
+			}
 		}
-		a, b, c, dd := check(f)
-		q.Firstok = q.Firstok && math.Abs(f.t-mint) <= 1e-9*math.Max(1, math.Abs(mint)) && a && b && c && dd
+		for _, h := range hits {
+			if math.Abs(h.t-best.t) <= 1e-9*math.Max(1, math.Abs(best.t)) {
+				same++
+			}
+		}
+		q.Firstok = q.Firstok && math.Abs(f.t-best.t) <= 1e-9*math.Max(1, math.Abs(best.t)) &&
+			(same > 1 || pvNorm(pvSub(f.n, best.n)) <= 1e-9)
 	}
 	// exact ray parameters (boxes): 24 * t * 2^e is an integer
 	q.T24x = true
